@@ -677,7 +677,7 @@ namespace
             uint64_t pick = pr.below(total);
             for (unsigned o = 0; o < OP_COUNT; ++o) { if (pick < w[o]) { s.op = static_cast<int>(o); break; } pick -= w[o]; }
             s.a = pr.next() >> 40; s.b = pr.next() >> 40; s.c = pr.next() >> 40; s.d = pr.next() >> 44;
-            if ((s.op == OP_insert || s.op == OP_reinsert) && pr.below(100) < fault_pct) { s.fkind = FK_ALLOC; s.fk = pr.below(6); }
+            if ((s.op == OP_insert || s.op == OP_reinsert) && pr.below(100) < fault_pct) { s.fkind = FK_ALLOC; s.fk = pr.below(4); }
             plan.steps.push_back(s);
         }
     }
